@@ -241,6 +241,13 @@ type hWorld struct {
 	// NilPtrOnFail: a failing *struct-form function returns a nil pointer next to its error
 	NilPtrOnFail bool
 
+	// ErrKind: what kind of error value a failing function returns: 0 a distinct pointer
+	// error (fmt.Errorf), 1 a distinct *ErrArgumentUnsatisfied (the library's own error
+	// type, as a converter forwarding an inner call's error returns), 2 / 3 a
+	// struct-valued error that is the ZERO value of its type for converter 1 / for the
+	// target (non-nil as an error all the same)
+	ErrKind int
+
 	// FailFn, when set, overrides the specs' Fails bit at execution time
 	// (lets a history make a function fail in one call and succeed in the next).
 	FailFn func(id int) bool
@@ -608,6 +615,23 @@ func (w *hWorld) hBuild(f hFuncSpec, opts ...Arg) (*Func, error) {
 	return nil, hErrBuild
 }
 
+// hValErr is an error type whose zero value is a perfectly good (non-nil) error.
+type hValErr struct{ Code int }
+
+func (e hValErr) Error() string { return fmt.Sprintf("harness value error %d", e.Code) }
+
+func (w *hWorld) hMkErr(k int) error {
+	switch w.ErrKind {
+	case 1:
+		return &ErrArgumentUnsatisfied{}
+	case 2:
+		return hValErr{Code: k - 1}
+	case 3:
+		return hValErr{Code: k}
+	}
+	return fmt.Errorf("harness error of function %d", k)
+}
+
 // hValArg is the option that supplies value i. With mode bit 32 the spelling is
 // symbolic: the same labelled value can be written as NamedSubtype, Named, Typed
 // (also after a nil in the same variadic Typed), or TypedSubtype.
@@ -645,7 +669,7 @@ func (w *hWorld) hBuildAll() ([]Arg, bool) {
 	w.Errs = make([]error, n)
 	w.Funcs = make([]*Func, n)
 	for k := 0; k < n; k++ {
-		w.Errs[k] = fmt.Errorf("harness error of function %d", k)
+		w.Errs[k] = w.hMkErr(k)
 	}
 	var topts []Arg
 	if w.Mode&64 != 0 {
@@ -685,7 +709,7 @@ func (w *hWorld) hBuildAllAsDefaults() bool {
 	w.Errs = make([]error, n)
 	w.Funcs = make([]*Func, n)
 	for k := 0; k < n; k++ {
-		w.Errs[k] = fmt.Errorf("harness error of function %d", k)
+		w.Errs[k] = w.hMkErr(k)
 	}
 	var opts []Arg
 	for _, v := range w.Vals {
